@@ -112,7 +112,8 @@ pub fn snapshot(h: &H, inst: usize) -> Snapshot {
 }
 
 /// Compare the dataset loaded by a fresh server with the one that was saved `elapsed` ns earlier.
-pub fn compare_restored(h: &mut H, prop: &str, before: &Snapshot, after: &Snapshot, elapsed: u64) {
+pub fn diff_restored(prop: &str, before: &Snapshot, after: &Snapshot, elapsed: u64, counts: &mut BTreeMap<String, u64>) -> Vec<(String, String)> {
+    let mut out: Vec<(String, String)> = Vec::new();
     let tol: i128 = 2_000_000; // clock granularity of the dump format is 1 ms
     for db in 0..16 {
         for (k, e) in before[db].iter() {
@@ -120,26 +121,33 @@ pub fn compare_restored(h: &mut H, prop: &str, before: &Snapshot, after: &Snapsh
             if let Some(t) = e.ttl_ns { if t <= 0 { continue; } } // already expired when saved: either outcome
             let remaining = e.ttl_ns.map(|t| t - elapsed as i128);
             match (after[db].get(k), remaining) {
-                (None, Some(rem)) if rem <= tol => { h.count("expired_during_downtime_absent", 1); }
-                (None, _) => { h.violate(format!("{}/missing-key/{}/{}", prop, ty, size_class(&e.value)), format!("db{} key {} ({} {}, ttl {:?}) is absent after the restart", db, esc(k), ty, size_class(&e.value), remaining)); }
+                (None, Some(rem)) if rem <= tol => { *counts.entry("expired_during_downtime_absent".into()).or_insert(0) += 1; }
+                (None, _) => { out.push((format!("{}/missing-key/{}/{}", prop, ty, size_class(&e.value)), format!("db{} key {} ({} {}, ttl {:?}) is absent after the restart", db, esc(k), ty, size_class(&e.value), remaining))); }
                 (Some(a), rem) => {
-                    if let Some(rem) = rem { if rem < -tol { if a.ttl_ns.map_or(true, |t| t > 0) { h.violate(format!("{}/expired-key-restored/{}", prop, ty), format!("db{} key {}: its deadline passed {} ns before the restart but it is back with ttl {:?}", db, esc(k), -rem, a.ttl_ns)); } continue; } }
+                    if let Some(rem) = rem { if rem < -tol { if a.ttl_ns.map_or(true, |t| t > 0) { out.push((format!("{}/expired-key-restored/{}", prop, ty), format!("db{} key {}: its deadline passed {} ns before the restart but it is back with ttl {:?}", db, esc(k), -rem, a.ttl_ns))); } continue; } }
                     if !same_value(&e.value, &a.value) {
-                        h.violate(format!("{}/value-differs/{}/{}", prop, ty, size_class(&e.value)), format!("db{} key {}: saved {} ; restored {}", db, esc(k), trunc(&format!("{:?}", e.value)), trunc(&format!("{:?}", a.value))));
+                        out.push((format!("{}/value-differs/{}/{}", prop, ty, size_class(&e.value)), format!("db{} key {}: saved {} ; restored {}", db, esc(k), trunc(&format!("{:?}", e.value)), trunc(&format!("{:?}", a.value)))));
                         continue;
                     }
                     match (rem, a.ttl_ns) {
                         (None, None) => {}
-                        (Some(_), None) => h.violate(format!("{}/ttl-lost/{}", prop, ty), format!("db{} key {} had {:?} ns to live, restored without deadline", db, esc(k), rem)),
-                        (None, Some(t)) => h.violate(format!("{}/ttl-spurious/{}", prop, ty), format!("db{} key {} had no deadline, restored with {} ns", db, esc(k), t)),
-                        (Some(r0), Some(t)) => { if (r0 - t).abs() > tol && !(r0 > 4_000_000_000_000_000_000 && t > 4_000_000_000_000_000_000) { h.violate(format!("{}/ttl-differs/{}", prop, ty), format!("db{} key {}: {} ns were left, restored with {} ns", db, esc(k), r0, t)); } }
+                        (Some(_), None) => out.push((format!("{}/ttl-lost/{}", prop, ty), format!("db{} key {} had {:?} ns to live, restored without deadline", db, esc(k), rem))),
+                        (None, Some(t)) => out.push((format!("{}/ttl-spurious/{}", prop, ty), format!("db{} key {} had no deadline, restored with {} ns", db, esc(k), t))),
+                        (Some(r0), Some(t)) => { if (r0 - t).abs() > tol && !(r0 > 4_000_000_000_000_000_000 && t > 4_000_000_000_000_000_000) { out.push((format!("{}/ttl-differs/{}", prop, ty), format!("db{} key {}: {} ns were left, restored with {} ns", db, esc(k), r0, t))); } }
                     }
-                    h.count("keys_compared_equal", 1);
+                    *counts.entry("keys_compared_equal".into()).or_insert(0) += 1;
                 }
             }
         }
-        for (k, a) in after[db].iter() { if !before[db].contains_key(k) { h.violate(format!("{}/extra-key/{}", prop, type_of(&a.value)), format!("db{} key {} appeared after the restart", db, esc(k))); } }
+        for (k, a) in after[db].iter() { if !before[db].contains_key(k) { out.push((format!("{}/extra-key/{}", prop, type_of(&a.value)), format!("db{} key {} appeared after the restart", db, esc(k)))); } }
     }
+    out
+}
+
+pub fn compare_restored(h: &mut H, prop: &str, before: &Snapshot, after: &Snapshot, elapsed: u64) {
+    let mut counts = BTreeMap::new();
+    for (c, d) in diff_restored(prop, before, after, elapsed, &mut counts) { h.violate(c, d); }
+    for (k, v) in counts { h.count(&k, v); }
 }
 
 fn trunc(s: &str) -> String { if s.len() > 200 { format!("{}...", &s[..200]) } else { s.to_string() } }
